@@ -10,6 +10,8 @@ mod c33;
 mod c34;
 mod c35;
 mod c36;
+mod mgen;
+mod minrec;
 
 fn main() {
     let ctx = Ctx::from_args();
